@@ -63,6 +63,10 @@ def _compile_prolog_from_stream(inp, ctx):
     code = compiler.compile_program(program)
     generator = YPPythonCodeGenerator(ctx)
     pythoncode = generator.generate(code)
+    try:
+        compile(pythoncode, filename or '<generated>', 'exec')
+    except (SyntaxError, MemoryError, RecursionError) as e:
+        raise CompilerError.at(filename, 0, 0, f'program too large for Python: {e}') from e
     return pythoncode
 
 class CompilerContext:
